@@ -34,7 +34,8 @@ fn strip_underlines(literal: &[u8]) -> Option<Vec<u8>> {
 }
 
 pub fn parse_bytes(literal: &[u8]) -> Option<f64> {
-    parse_inner(trim_slice(literal, |b| b.is_ascii_whitespace()))
+    // `u8::is_ascii_whitespace` does not include vertical tab, which `float()` strips as well
+    parse_inner(trim_slice(literal, |b| b.is_ascii_whitespace() || *b == 0x0b))
 }
 
 fn trim_slice<T>(v: &[T], mut trim: impl FnMut(&T) -> bool) -> &[T] {
